@@ -392,6 +392,121 @@ def run(ctx):
         if any(pb["path"] in r for pb in parse_builders):
             reach_ok += 1
     chk.floor("R07.5", "public entries that reach a builder", reach_ok, 6)
+    consumed_text(chk, fb)
+
+
+def _byte_length(fb, v, depth=0):
+    """Is the term a number of bytes that ends on a character boundary of the text it was computed from?"""
+    v = rel.canon(v)
+    if depth > 8 or not isinstance(v, App):
+        return False
+    if v.fn.endswith("::len") and len(v.args) == 1:
+        return True                                        # length of a &str
+    if v.fn in ("binop:Add", "binop:Sub") and len(v.args) == 2:
+        a, b = v.args
+        ca, cb = rel.const_int(a), rel.const_int(b)
+        if cb is not None:
+            return _byte_length(fb, a, depth + 1)          # plus an ASCII delimiter
+        if ca is not None:
+            return _byte_length(fb, b, depth + 1)
+        return _byte_length(fb, a, depth + 1) and _byte_length(fb, b, depth + 1)
+    if v.fn == "std::iter::Iterator::sum" and len(v.args) == 1:
+        m = rel.canon(v.args[0])
+        # chars().take_while(..).map(|c| c.len_utf8()).sum()
+        if isinstance(m, App) and m.fn == "std::iter::Iterator::map" and len(m.args) == 2 and isinstance(m.args[1], Closure) and "::chars(" in rel.cstr(m.args[0]):
+            cb = fb.bodies.get(m.args[1].path)
+            if cb is not None:
+                ps = [q for q in Interp(fb, _NoInline()).run(cb, [m.args[1], Sym("c")]) if q.status == "return"]
+                return len(ps) == 1 and rel.cstr(ps[0].result) in ("std::char::methods::<impl char>::len_utf8(c)",)
+        return False
+    if v.fn in ("std::option::Option::<T>::unwrap_or", "std::option::Option::<T>::unwrap_or_else") and len(v.args) == 2:
+        f = rel.canon(v.args[0])
+        return isinstance(f, App) and f.fn in ("core::str::<impl str>::find", "core::str::<impl str>::rfind") and _byte_length(fb, v.args[1], depth + 1)
+    if v.fn.endswith("len_utf8"):
+        return True
+    return False
+
+
+def consumed_text(chk, fb):
+    """R07.6: the tokenizer's read position stays on a character boundary, so no part of the text is skipped silently.
+    The loop visits (byte index, char) pairs and handles a char only when its index equals the read position; if the
+    position ever lands inside a multi-byte character it never matches again and the rest of the text - whatever it
+    contains - is ignored.  Decided from the loop's general trips: a constant advance is +1 and is taken only on a path
+    where the current character was compared equal to an ASCII literal; every other advance is a byte length computed from
+    the text at the read position."""
+    from rules import c08 as _c08
+    chk.rule("R07.6", "tokenizer: the read position only advances by +1 under an equality with an ASCII literal, or by a byte length computed from the text: no text is skipped silently")
+    tk = fb.find_bodies(lambda b: b["kind"] == "Fn" and b["path"].endswith("parser::tokenize_and_analyze"))
+    if len(tk) != 1:
+        chk.violation("R07.6", "anchor", "tokenizer not found")
+        return
+    b = tk[0]
+    where = loc(b["span"])
+    allp = Interp(fb, _c08._P()).run(b, [Sym("text"), Sym("ops_in"), Sym("is_numeric")])
+    if any(p.status not in ("return", "loop-pruned", "unreachable") for p in allp):
+        chk.unrecognised("R07.6", "shape", "tokenizer shape not recognised", where)
+        return
+    # the read position: the loop-carried local compared for equality with the visited byte index
+    pos = None
+    gen = []
+    for p in allp:
+        for t in loops.trips(p, b["path"], 0):
+            if t.general and t.post is not None:
+                gen.append(t)
+                for d in t.decisions:
+                    c = rel.canon(d[1])
+                    if isinstance(c, App) and c.fn == "binop:Eq" and len(c.args) == 2:
+                        for x, y in (c.args, c.args[::-1]):
+                            lu = loops.loop_unknown(y)
+                            if lu is not None and "Iterator::next(" in rel.cstr(x) and rel.cstr(x).startswith(".0(.0("):
+                                pos = (lu[2], lu[1])
+    if pos is None:
+        chk.unrecognised("R07.6", "position", "read position of the tokenizer not identified", where)
+        return
+    H, L = pos
+    n_adv = 0
+    seen = set()
+    for t in gen:
+        if t.header != H or L not in t.pre or L not in t.post:
+            continue
+        pre, post = t.pre[L], rel.canon(t.post[L])
+        if post.key() == pre.key():
+            continue
+        if not (isinstance(post, App) and post.fn == "binop:Add" and len(post.args) == 2 and rel.canon(post.args[0]).key() == pre.key()):
+            key = ("shape", rel.cstr(post)[:80])
+            if key not in seen:
+                seen.add(key)
+                chk.unrecognised("R07.6", "advance", "the read position becomes %s" % rel.cstr(post)[:100], where)
+            continue
+        n_adv += 1
+        step = rel.canon(post.args[1])
+        k = rel.const_int(step)
+        if k is not None:
+            lits = []
+            for d in t.decisions:
+                c = rel.canon(d[1])
+                if isinstance(c, App) and c.fn == "binop:Eq" and d[2] is True:
+                    for x in c.args:
+                        if isinstance(x, Const) and x.ty == "char" and x.bits is not None:
+                            lits.append(x.bits)
+            if k != 1 or not lits or any(ch >= 128 for ch in lits):
+                conds = [(rel.cstr(d[1])[:70], d[2]) for d in t.decisions if "Iterator::next(" not in rel.cstr(d[1])[:60] or "is_" in rel.cstr(d[1])][-3:]
+                key = ("const", k, tuple(lits))
+                if key not in seen:
+                    seen.add(key)
+                    chk.violation("R07.6", "blind-advance", "the tokenizer advances its read position by the constant %d without having compared the current character with an ASCII literal (%s): after a multi-byte character the position is inside a character and the rest of the text is skipped unread" % (
+                        k, conds), where)
+        else:
+            s = rel.cstr(step)
+            if not _byte_length(fb, step):
+                key = ("term", s[:60])
+                if key not in seen:
+                    seen.add(key)
+                    chk.violation("R07.6", "advance", "the tokenizer advances its read position by %s, which is not a byte length taken from the text" % s[:100], where)
+    if n_adv < 5:
+        chk.unrecognised("R07.6", "advances", "only %d advancing trips found" % n_adv, where)
+    elif not seen:
+        chk.ok("R07.6", "read position advances only by +1 on ASCII literals or by byte lengths of matched text", "%d advancing trips" % n_adv, where)
 
 
 def _closures(v, out=None, depth=0):
